@@ -80,6 +80,7 @@ fn main() {
             "C01" => checks::c01::replay(&case),
             "C07" => checks::c07::replay(&case),
             "C08" => checks::c08::replay(&case),
+            "C10" => checks::c10::replay(&case),
             "C11" => checks::c11::replay(&case),
             "C12" => checks::c12::replay(&case),
             "C13" => checks::c13::replay(&case),
@@ -108,6 +109,7 @@ fn main() {
         "C01" => checks::c01::run(&mut ctx),
         "C07" => checks::c07::run(&mut ctx),
         "C08" => checks::c08::run(&mut ctx),
+        "C10" => checks::c10::run(&mut ctx),
         "C11" => checks::c11::run(&mut ctx),
         "C12" => checks::c12::run(&mut ctx),
         "C13" => checks::c13::run(&mut ctx),
